@@ -96,6 +96,7 @@ var mutantCatalogue = map[string][]mutant{
 		{Name: "rollback forgets the replaced writes", File: "risc/app.go", Old: "\t\tfor _, overwritten := range ctx.transactionOverwritten[register] {\n\t\t\tif overwritten.sequenceID < sequenceID && (tu.sequenceID >= sequenceID || overwritten.sequenceID > tu.sequenceID) {\n\t\t\t\ttu = overwritten\n\t\t\t}\n\t\t}\n", New: ""},
 	},
 	"C07": {
+		{Name: "flush leaves the branch flag raised", File: "proc/mvp7-0/cu.go", Old: "\tu.pushedRunnersInPreviousCycle = nil\n\tu.pendingConditionalBranch = false\n}", New: "\tu.pushedRunnersInPreviousCycle = nil\n}"},
 		{Name: "refused writer still counted", File: "proc/comp/semaphore.go", Old: "\tif s.write > 0 || s.read > 0 {\n\t\treturn false\n\t}\n\ts.write++", New: "\ts.write++\n\tif s.write > 1 || s.read > 0 {\n\t\treturn false\n\t}"},
 		{Name: "final drain never steps the snoops", File: "proc/mvp7-0/cpu.go", Old: "\t\t\tcc.snoop.Cycle(struct{}{})\n\t\t}\n\t\tfor i, eu", New: "\t\t}\n\t\tfor i, eu"},
 		{Name: "final drain never connects the write bus", File: "proc/mvp7-1/cpu.go", Old: "\t\t// What the execute units completed still has to be written\n\t\tm.writeBus.Connect(cycle)\n", New: ""},
@@ -152,6 +153,7 @@ var mutantCatalogue = map[string][]mutant{
 		{Name: "decode does not stall after a jump", File: "proc/mvp6-0/du.go", Old: "\t\t\tu.pendingBranchResolution = true\n", New: ""},
 	},
 	"C04": {
+		{Name: "received forward value dropped", File: "proc/mvp7-0/eu.go", Old: "\t\t\tvalue = v\n", New: "\t\t\t_ = v\n"},
 		{Name: "held-back instruction not recorded", File: "proc/mvp7-1/cu.go", Old: "\t\t\tu.pendings.Push(runner)\n\t\t\tu.skippedInCurrentCycle = append(u.skippedInCurrentCycle, runner)\n", New: "\t\t\tu.pendings.Push(runner)\n"},
 		{Name: "dispatch window never re-created", File: "proc/mvp6-3/cu.go", Old: "func (u *controlUnit) cycle(cycle int) {\n\tu.pushedRunnersInCurrentCycle = make(map[*risc.InstructionRunnerPc]bool)\n", New: "func (u *controlUnit) cycle(cycle int) {\n"},
 		{Name: "renaming on RAW", File: "proc/mvp6-3/cu.go", Old: "\tif hazardTypes[risc.ReadAfterWrite] {\n\t\treturn false\n\t}\n\treturn true", New: "\treturn true"},
@@ -169,6 +171,7 @@ var mutantCatalogue = map[string][]mutant{
 		{Name: "pending write deleted outright", File: "risc/app.go", Old: "\t\tctx.PendingWriteRegisters[register]--\n\t\tif ctx.PendingWriteRegisters[register] <= 0 {\n\t\t\tdelete(ctx.PendingWriteRegisters, register)\n\t\t}\n\t}\n}\n\n// IsWriteDataHazard", New: "\t\tdelete(ctx.PendingWriteRegisters, register)\n\t}\n}\n\n// IsWriteDataHazard"},
 	},
 	"C05": {
+		{Name: "miss path runs the load on stale bytes", File: "proc/mvp6-2/eu.go", Old: "\t\t\t\tu.memory = m\n", New: "\t\t\t\t_ = m\n"},
 		{Name: "final write-back skips the evicted-from-L3 case", File: "proc/mvp8-0/cc.go", Old: "\t\t\tadditionalCycles += latency.MemoryAccess\n\t\t\tcc.mmu.writeToMemory(line.Boundary[0], line.Data)\n", New: "\t\t\tadditionalCycles += latency.MemoryAccess\n"},
 		{Name: "L3 miss snapshots the line at issue", File: "proc/mvp6-3/eu.go", Old: "\t\t\tu.Checkpoint(func(r euReq) euResp {\n\t\t\t\tif remainingCycles > 0 {\n\t\t\t\t\tlog.Infoi(r.ctx, \"EU\", u.runner.Runner.InstructionType(), u.runner.Pc, \"pending memory access %d\", remainingCycles)\n\t\t\t\t\tremainingCycles--\n\t\t\t\t\treturn euResp{}\n\t\t\t\t}\n\t\t\t\tline := u.mmu.fetchCacheLine(addrs[0])\n", New: "\t\t\tline := u.mmu.fetchCacheLine(addrs[0])\n\t\t\tu.Checkpoint(func(r euReq) euResp {\n\t\t\t\tif remainingCycles > 0 {\n\t\t\t\t\tlog.Infoi(r.ctx, \"EU\", u.runner.Runner.InstructionType(), u.runner.Pc, \"pending memory access %d\", remainingCycles)\n\t\t\t\t\tremainingCycles--\n\t\t\t\t\treturn euResp{}\n\t\t\t\t}\n"},
 		{Name: "no final write-back", File: "proc/mvp3/cpu.go", Old: "\tm.cycle += m.mmu.flush()\n", New: ""},
@@ -201,6 +204,7 @@ var mutantCatalogue = map[string][]mutant{
 		{Name: "latency read from a global counter", File: "proc/comp/cache.go", Old: "func (c *LRUCache) Lines() []Line {", New: "func (c *LRUCache) Skew() int {\n\treturn Delta % 2\n}\n\nfunc (c *LRUCache) Lines() []Line {"},
 	},
 	"C10": {
+		{Name: "load data never reaches Run", File: "proc/mvp8-0/eu.go", Old: "\t\t\tu.memory = resp.data\n", New: ""},
 		{Name: "reader admitted beside a writer", File: "proc/comp/semaphore.go", Old: "func (s *Sem) RLock() bool {\n\tif s.write > 0 {\n\t\treturn false\n\t}\n", New: "func (s *Sem) RLock() bool {\n"},
 		{Name: "write unit forgets the store", File: "proc/mvp6-1/wu.go", Old: "\t\t\tr.ctx.WriteMemory(u.memoryWrite.Execution)\n", New: ""},
 		{Name: "L3 miss snapshots the line at issue", File: "proc/mvp6-3/eu.go", Old: "\t\t\tu.Checkpoint(func(r euReq) euResp {\n\t\t\t\tif remainingCycles > 0 {\n\t\t\t\t\tlog.Infoi(r.ctx, \"EU\", u.runner.Runner.InstructionType(), u.runner.Pc, \"pending memory access %d\", remainingCycles)\n\t\t\t\t\tremainingCycles--\n\t\t\t\t\treturn euResp{}\n\t\t\t\t}\n\t\t\t\tline := u.mmu.fetchCacheLine(addrs[0])\n", New: "\t\t\tline := u.mmu.fetchCacheLine(addrs[0])\n\t\t\tu.Checkpoint(func(r euReq) euResp {\n\t\t\t\tif remainingCycles > 0 {\n\t\t\t\t\tlog.Infoi(r.ctx, \"EU\", u.runner.Runner.InstructionType(), u.runner.Pc, \"pending memory access %d\", remainingCycles)\n\t\t\t\t\tremainingCycles--\n\t\t\t\t\treturn euResp{}\n\t\t\t\t}\n"},
